@@ -126,6 +126,14 @@ ptype check — enforced by the generator). `Gen.classWritesBeforeSuper` is rege
 theorem no_write_before_guard : ∀ c, classWritesBeforeSuper c = [] := by
   intro c; cases c <;> rfl
 
+/-- "a refused operation leaves both operands unchanged", structural part for PROPAGATION: neither `propagate_dft` nor
+`propagate_fft` writes an attribute or item of its `wavefront` operand, calls an in-place mutator on it, or hands it to a
+helper that does (followed into `_has_tilt`), up to and including the `_propagate_ptype` call that raises the TypeError of a
+refused propagation — so a refusal by type happens before anything was done to the wavefront. The two lists are regenerated
+from the statements of lentil/propagate.py that precede the type check (also through a local alias `x = wavefront`). -/
+theorem propagate_no_write_before_guard :
+    propDftEffectsBeforeTypeCheck = [] ∧ propFftEffectsBeforeTypeCheck = [] := ⟨rfl, rfl⟩
+
 /-- `propagate_fft` types exactly like `propagate_dft` on a wavefront without fitted tilt, and refuses a tilt-carrying
 wavefront of every type with NotImplementedError (checked before the type) — the "dft or fft" of diffraction.rst -/
 theorem fft_typing :
